@@ -2,6 +2,7 @@
 import ast, copy, json, os
 import numpy as np
 from .. import posecase as pc
+from ..mtexec import f64_bits, bits_f64
 
 RULE = ("poses with 1–4 components (unique names), 1–5 uniquely named points each, limbs and colours, 1–2 people, 1–3 frames, distinct values per cell; get_components with every kind of request "
         "(ordered selections of components, sub-lists and permutations of points, a single point), remove_components with present and absent component / point names; compared with the Lean model "
@@ -170,6 +171,7 @@ def helpers(ctx):
             if c in offs and p in offs[c][1]:
                 out.append(offs[c][0] + offs[c][1].index(p))
         return out
+    model_reqs, model_meta = [], []
     for rep in range(ctx.pick(4, 30)):
         op_header = PoseHeader(0.2, PoseHeaderDimensions(100, 100, 0), copy.deepcopy(OpenPose_Components))
         hol = holistic_header()
@@ -205,6 +207,14 @@ def helpers(ctx):
                 oth = [i for i in range(N) if i not in wr]
                 if not (np.array_equal(np.asarray(fixed.body.data.data)[:, :, oth], a[:, :, oth]) and np.array_equal(fixed.body.confidence[:, :, oth], pose.body.confidence[:, :, oth])):
                     ctx.violation("correct_wrists changes points other than the body wrists", {"format": kind}, {}, True, signature={"clause": "wrists"})
+                # the same two helpers through the Lean model (Model/Helpers.lean: hidePoints, correctWrist)
+                hands = named(header, [("hand_left_keypoints_2d", "BASE"), ("hand_right_keypoints_2d", "BASE")] if kind == "openpose" else [("LEFT_HAND_LANDMARKS", "WRIST"), ("RIGHT_HAND_LANDMARKS", "WRIST")])
+                bodyw = named(header, [("pose_keypoints_2d", "LWrist"), ("pose_keypoints_2d", "RWrist")] if kind == "openpose" else [("POSE_LANDMARKS", "LEFT_WRIST"), ("POSE_LANDMARKS", "RIGHT_WRIST")])
+                mb = {"fps": f64_bits(25.0), "shape": list(a.shape), "data": [f64_bits(float(x)) for x in a.reshape(-1)], "conf": [f64_bits(float(x)) for x in np.asarray(pose.body.confidence).reshape(-1)]}
+                model_reqs.append({"op": "body_ops", "backend": "numpy", "body": mb, "ops": [{"k": "hide_points", "ixs": sorted(leg_idx)}]}); model_meta.append((kind, "pose_hide_legs", hidden))
+                if len(hands) == 2 and len(bodyw) == 2:
+                    model_reqs.append({"op": "body_ops", "backend": "numpy", "body": mb, "ops": [{"k": "correct_wrist", "hand": hands[0], "body": bodyw[0]}, {"k": "correct_wrist", "hand": hands[1], "body": bodyw[1]}]})
+                    model_meta.append((kind, "correct_wrists", fixed))
                 if kind == "holistic":
                     red = reduce_holistic(pose)
                     names = [(c.name, p) for c in red.header.components for p in c.points]
@@ -213,6 +223,16 @@ def helpers(ctx):
                         ctx.violation("reduce_holistic does not keep exactly the named points with their values", {"format": kind}, {}, True, signature={"clause": "reduce_holistic"})
             except Exception as e:
                 ctx.violation("a known-format helper fails on a pose of its format", {"format": kind, "points": N}, {"error": "%s: %s" % (type(e).__name__, e)}, True, signature={"clause": "helper_raises"})
+    for (kind, what, got), mo in zip(model_meta, ctx.driver.run(model_reqs) if model_reqs else []):
+        ctx.count("helper_model:" + what)
+        st = mo["steps"][-1]
+        if "error" in st:
+            ctx.violation("the model refuses a helper the implementation performs", {"format": kind, "helper": what}, {}, False); continue
+        gd, gm, gc = np.asarray(got.body.data.data, dtype=np.float64), np.asarray(np.ma.getmaskarray(got.body.data)), np.asarray(got.body.confidence, dtype=np.float64)
+        md = np.array([bits_f64(x) for x in st["zf"]]).reshape(gd.shape); mc = np.array([bits_f64(x) for x in st["conf"]]).reshape(gc.shape); mm = np.array(st["missing"], dtype=bool).reshape(gm.shape)
+        if not (np.array_equal(mm, gm) and np.array_equal(mc, gc) and np.array_equal(md, np.where(gm, 0.0, gd))):
+            ctx.violation("a known-format helper's result differs from its model", {"format": kind, "helper": what},
+                          {"mask_differs": int((mm != gm).sum()), "conf_differs": int((mc != gc).sum()), "data_differs": int((md != np.where(gm, 0.0, gd)).sum())}, False)
 
 
 def replay(ctx, rep):
